@@ -181,8 +181,9 @@ func (t *Transfer) inIxfr(q *Msg, c chan *Envelope) {
 			}
 			// This serial is important
 			serial = in.Answer[0].(*SOA).Serial
-			// Check if there are no changes in zone
-			if qser >= serial {
+			// Check if there are no changes in zone: the server's version is the same
+			// as ours or older, in serial number arithmetic (RFC 1982) - serials wrap.
+			if qser == serial || int32(qser-serial) > 0 {
 				c <- &Envelope{in.Answer, nil}
 				return
 			}
